@@ -541,6 +541,25 @@ def c04(tier, seed):
                             k += 1
     return out
 
+def c13rev(tier, seed):
+    """reversals that re-open, across the relation between the fees, the old position's equity and the new
+    margin (the native required-funds bookkeeping has one arm per ordering): cw20 scenarios for the twin runner"""
+    out = []
+    k = 0
+    for (toll, spread) in ((0, 0), (10, 0), (5, 10), (1, 1)):
+        for vside in ("buy", "sell"):
+            pside = "sell" if vside == "buy" else "buy"
+            for (vm, vlev) in ((12500, 200), (2000, 1000)):
+                for push in (0, 4000, 8000, 12500):
+                    for (rm, rlev) in ((4500, 1000), (3000, 1000), (9000, 500), (30000, 200), (2600, 1000), (60000, 100)):
+                        ops = [block(15), opn("tr1", vside, vm, vlev)]
+                        if push:
+                            ops.append(opn("tr2", pside, push, 200))
+                        ops += [block(15), opn("tr1", pside, rm, rlev), close("tr1"), close("tr2")]
+                        out.append(dict(id="c13rev-%d" % k, deploy=dep("cw20", vamms=[dict(toll=toll, spread=spread)]), ops=ops))
+                        k += 1
+    return out
+
 def c04r(tier, seed):
     """an opposite OpenPosition whose notional is just above the position's value: the reversal closes the
     whole position and drops the remainder (< leverage): healthy, under-water and funding-laden victims"""
